@@ -56,6 +56,13 @@ def plan(tier, seed):
     return [{"shard": i, "cases": n} for i in range(NSHARDS)]
 
 
+def _q18(x):
+    """18 places, in a context wide enough for amounts of cheap tokens (1e25 of them need 43 digits)"""
+    from decimal import Context
+
+    return Context(prec=80).quantize(Decimal(x), Decimal(10) ** -18)
+
+
 def run(spec, mon):
     for c in range(spec["cases"]):
         rng = mon.case_rng(c)
@@ -360,7 +367,7 @@ class Case:
                 return "withdraw", f"withdraw_max_{tag}", call(m.withdraw, t, a)
             f = {"withdraw_part": Fraction(rng.randint(1, 80), 100), "withdraw_most": Fraction(rng.randint(90, 100), 100),
                  "withdraw_over": Fraction(3, 2)}[op]
-            a = Decimal(str(float(cur * f))).quantize(Decimal(10) ** -18)
+            a = _q18(Decimal(str(float(cur * f))))
             return "withdraw", f"{op}_{tag}", call(m.withdraw, t, a)
         if op in ("borrow", "borrow_max", "borrow_over", "borrow_nocoll", "borrow_disabled"):
             if op == "borrow_disabled":
@@ -379,7 +386,7 @@ class Case:
             if room is None:
                 return None
             f = Decimal(rng.randint(5, 95)) / 100 if op == "borrow" else Decimal("1.5")
-            a = (room * f).quantize(Decimal(10) ** -18)
+            a = _q18(room * f)
             label = op + ("_new" if t.name not in exp.bor else "_more")
             return "borrow", label, call(m.borrow, t, a)
         if op in ("repay_part", "repay_all", "repay_over"):
@@ -388,7 +395,7 @@ class Case:
             if op == "repay_all":
                 return "repay", op, call(m.repay, t, None)
             f = Fraction(rng.randint(1, 95), 100) if op == "repay_part" else Fraction(3, 2)
-            return "repay", op, call(m.repay, t, Decimal(str(float(cur * f))).quantize(Decimal(10) ** -18))
+            return "repay", op, call(m.repay, t, _q18(Decimal(str(float(cur * f)))))
         if op == "repay_coll":
             t = tok[rng.choice(bor)]
             cands = coll if (coll and rng.random() < 0.85) else sup
@@ -401,7 +408,7 @@ class Case:
                 label = "repay_coll_plain_supply"
             if rng.random() < 0.25:
                 return "repay_with_collateral", label + "_all", call(m.repay, t, None, True, ct)
-            a = Decimal(str(float(cur * Fraction(rng.randint(5, 95), 100)))).quantize(Decimal(10) ** -18)
+            a = _q18(Decimal(str(float(cur * Fraction(rng.randint(5, 95), 100)))))
             return "repay_with_collateral", label, call(m.repay, t, a, True, ct)
         if op == "collateral_flip":
             t = tok[rng.choice(sup)]
